@@ -1,5 +1,5 @@
 import Canopy.Model.SmtProof
-import Canopy.Proof.SmtProofFixed
+import Canopy.Proof.SmtProofSound
 import Canopy.Proof.SmtHistory
 import Canopy.Gen.SmtFacts
 /-!
@@ -28,23 +28,22 @@ the real code by the Go driver, oracle signatures in brackets):
 and what does hold today: `complete_own_bounded` (honest proofs verify for the statement they were made for; bounded: all
 states over 3-bit keys — the unbounded statement is proved for the repaired verifier only).
 
-Part B is about the repair: the same witnesses are rejected (`fixed_rejects_witnesses`), and for every key length,
-tree and key `fixed_complete`, `fixed_sound_membership`, `fixed_sound_nonmembership` (under the explicit hash hypothesis).
+Part B is about the repair: the same witnesses are rejected (`fixed_rejects_witnesses`); it has no crash or hang
+outcome (`fixed_never_crashes`); and for every key length, tree, key and proof: `fixed_sound` (under the explicit hash
+hypothesis `H4Inj`) and `fixed_complete`.
 -/
 namespace Canopy.Smt
 open Trie V
 
 /-! ## the statements -/
 
-/-- the node hash the code uses, over an abstract byte hash `H` (`crypto.Hash`) -/
-def h4 (H : Bytes → Bytes) (a b c d : Bytes) : Bytes := H (a ++ b ++ (c ++ d))
-
 /-- Soundness of a verifier `vf` for key length `n`: whenever it accepts a statement against the root of a canonical
 tree holding `S`, the statement is true of `S`. -/
-def Sound (vf : Bytes → Bytes → Bool → Bytes → List PNode → Verdict) (H : Bytes → Bytes) (n : Nat) : Prop :=
+def Sound (vf : Bytes → Bytes → Bool → Bytes → List PNode → Verdict) (H : Bytes → Bytes)
+    (H4 : Bytes → Bytes → Bytes → Bytes → Bytes) (n : Nat) : Prop :=
   ∀ (t : Trie) (S : KMap) (userKey value : Bytes) (membership : Bool) (proof : List PNode),
     t.Rep n S → S.HasSentinels n →
-    vf userKey value membership (t.value (h4 H)) proof = .accept →
+    vf userKey value membership (t.value H4) proof = .accept →
     if membership then S (keyOfBytes n (H userKey)) = some (H value) else S (keyOfBytes n (H userKey)) = none
 
 /-- Totality in the sense of the property: no input makes the verifier panic or spin. -/
@@ -77,7 +76,7 @@ theorem sound_fails_foreign_membership :
     V.verify idH 4 (uk4 6) [5] true (root4 [5, 6]) (prove (h4 idH) (tree4 [5, 6]) (k4 5)) = .accept
     ∧ (k4 6, [6]) ∈ (tree4 [5, 6]).toList ∧ (k4 6, [5]) ∉ (tree4 [5, 6]).toList := by decide +kernel
 
-theorem not_sound_today : ¬ Sound (V.verify idH 4) idH 4 := by
+theorem not_sound_today : ¬ Sound (V.verify idH 4) idH (h4 idH) 4 := by
   intro h
   let ops : List Op := [.set (k4 11) [11], .set (k4 1) [1]]
   have hv : ∀ op ∈ ops, op.Valid 4 := by
@@ -143,18 +142,53 @@ theorem complete_own_bounded :
 
 /-- the repaired verifier rejects every witness of part A (and still accepts the honest statements) -/
 theorem fixed_rejects_witnesses :
-    verifyFixed idH 4 (uk4 1) [] false (root4 [11, 1]) (prove (h4 idH) (tree4 [11, 1]) (k4 11)) = .reject
-    ∧ verifyFixed idH 4 (uk4 6) [5] true (root4 [5, 6]) (prove (h4 idH) (tree4 [5, 6]) (k4 5)) = .reject
-    ∧ verifyFixed idH 4 (uk4 1) [] false (root4 [4, 11, 1]) (prove (h4 idH) (tree4 [4, 11, 1]) (k4 11)) = .reject
-    ∧ verifyFixed idH 4 (uk4 11) [11] true [] [⟨encodeKey (k4 11), [11], 0⟩, ⟨[], [], 0⟩] = .errInvalidProof
-    ∧ verifyFixed idH 4 (uk4 11) [11] true [] [⟨[5], [11], 0⟩, ⟨encodeKey (k4 1), [], 0⟩] = .errInvalidProof
-    ∧ verifyFixed idH 4 (uk4 11) [11] true (root4 [4, 11, 1]) (prove (h4 idH) (tree4 [4, 11, 1]) (k4 11)) = .accept
-    ∧ verifyFixed idH 4 (uk4 9) [] false (root4 [4, 11, 1]) (prove (h4 idH) (tree4 [4, 11, 1]) (k4 9)) = .accept := by
+    verifyFixed idH (h4 idH) 4 (uk4 1) [] false (root4 [11, 1]) (prove (h4 idH) (tree4 [11, 1]) (k4 11)) = .reject
+    ∧ verifyFixed idH (h4 idH) 4 (uk4 6) [5] true (root4 [5, 6]) (prove (h4 idH) (tree4 [5, 6]) (k4 5)) = .reject
+    ∧ verifyFixed idH (h4 idH) 4 (uk4 1) [] false (root4 [4, 11, 1]) (prove (h4 idH) (tree4 [4, 11, 1]) (k4 11)) = .reject
+    ∧ verifyFixed idH (h4 idH) 4 (uk4 11) [11] true [] [⟨encodeKey (k4 11), [11], 0⟩, ⟨[], [], 0⟩] = .errInvalidProof
+    ∧ verifyFixed idH (h4 idH) 4 (uk4 11) [11] true [] [⟨[5], [11], 0⟩, ⟨encodeKey (k4 1), [], 0⟩] = .errInvalidProof
+    ∧ verifyFixed idH (h4 idH) 4 (uk4 11) [11] true (root4 [4, 11, 1]) (prove (h4 idH) (tree4 [4, 11, 1]) (k4 11)) = .accept
+    ∧ verifyFixed idH (h4 idH) 4 (uk4 9) [] false (root4 [4, 11, 1]) (prove (h4 idH) (tree4 [4, 11, 1]) (k4 9)) = .accept := by
   decide +kernel
 
+/-- **The repaired verifier is sound** — for every key length, tree, key, value and EVERY proof (honest, for another key,
+truncated, re-ordered, bit-flipped, malformed): an accepted statement is true. The only hypothesis beyond canonical form
+is the hash idealisation, stated explicitly: `H4Inj H4`, the node hash is injective on its 4-tuple. -/
+theorem fixed_sound (H : Bytes → Bytes) {H4 : Bytes → Bytes → Bytes → Bytes → Bytes} (hH : H4Inj H4) {n : Nat}
+    (hn : 0 < n) : Sound (verifyFixed H H4 n) H H4 n := by
+  intro t S userKey value membership proof hrep hs hacc
+  exact verifyFixed_sound H H4 hH hn hrep hs userKey value membership proof hacc
+
+/-- non-vacuity of `fixed_sound`: the hypothesis is satisfiable (by the framed node hash of Proof/SmtHash.lean), and with
+it the verifier does accept honest proofs — the conclusion is not reached by never accepting. (The node hash the code
+uses, `h4 H`, hashes an unframed concatenation and cannot itself be injective on 4-tuples; `H4Inj` is the idealisation
+"collision-free and unambiguous on the tuples that occur", see C08.) -/
+example : Sound (verifyFixed idH framed4 4) idH framed4 4 ∧
+    verifyFixed idH framed4 4 (uk4 11) [11] true ((tree4 [4, 11, 1]).value framed4)
+      (prove framed4 (tree4 [4, 11, 1]) (k4 11)) = .accept ∧
+    verifyFixed idH framed4 4 (uk4 1) [] false ((tree4 [4, 11, 1]).value framed4)
+      (prove framed4 (tree4 [4, 11, 1]) (k4 11)) = .reject :=
+  ⟨fixed_sound idH H4Inj_satisfiable (by decide), by decide +kernel, by decide +kernel⟩
+
+/-- **The repaired verifier is complete at the tree level**: the proof `GetMerkleProof` produces for a non-reserved key
+verifies against the root — membership with the stored value if the key is present, non-membership if it is absent.
+(No hash hypothesis.) At the store level this needs, in addition, that `NewReadOnly` reads the prefix `Root()` writes —
+`store_reads_other_prefix` above is the part of the repair that is a one-word change in store.go. -/
+theorem fixed_complete (H : Bytes → Bytes) (H4 : Bytes → Bytes → Bytes → Bytes → Bytes) {n : Nat} (hn : 0 < n)
+    {t : Trie} {S : KMap}
+    (h : t.Rep n S) (hs : S.HasSentinels n) (userKey value : Bytes)
+    (hres : keyOfBytes n (H userKey) ≠ rootKey n ∧ keyOfBytes n (H userKey) ≠ minKey n ∧
+      keyOfBytes n (H userKey) ≠ maxKey n) :
+    (S (keyOfBytes n (H userKey)) = some (H value) →
+      verifyFixed H H4 n userKey value true (t.value H4) (prove H4 t (keyOfBytes n (H userKey))) = .accept) ∧
+    (S (keyOfBytes n (H userKey)) = none →
+      verifyFixed H H4 n userKey value false (t.value H4) (prove H4 t (keyOfBytes n (H userKey))) = .accept) :=
+  verifyFixed_complete H H4 hn h hs userKey value hres
+
 /-- the repaired verifier is a total function without a crash or hang outcome -/
-theorem fixed_never_crashes (H : Bytes → Bytes) (n : Nat) : NeverCrashes (verifyFixed H n) := by
+theorem fixed_never_crashes (H : Bytes → Bytes) (H4 : Bytes → Bytes → Bytes → Bytes → Bytes) (n : Nat) :
+    NeverCrashes (verifyFixed H H4 n) := by
   intro uk v m root proof
-  exact verifyFixed_no_crash H n uk v m root proof
+  exact verifyFixed_no_crash H H4 n uk v m root proof
 
 end Canopy.Smt
